@@ -1490,3 +1490,53 @@ func (c *Ctx) literalExprRule(rule string) {
 	}
 	r.Floor(rule, "LiteralSetter constructions in the parser", n, 1)
 }
+
+// keptLinesMoveRule (C11): lines kept in a comment group that lost lines take the places of the group's last lines.
+func (c *Ctx) keptLinesMoveRule(rule string) {
+	r := c.R
+	r.Rule(rule, "util.ExtractMatchComments re-places the lines it keeps: the Slash of a kept comment is assigned from the positions the group's own lines had (so that the kept lines end where the group ended) – go/printer goes by positions, and a doc comment that loses its last line (`//go:generate stringer -type=Kind` below the prose) would otherwise end one line above its declaration and be printed detached from it, as a comment of its own")
+	fn := c.MustFunc(rule, "/pkg/util", "ExtractMatchComments")
+	if fn == nil {
+		return
+	}
+	group := "param:" + fn.Params[0].Name()
+	ok := false
+	got := "no store into ast.Comment.Slash"
+	for _, b := range fn.Blocks {
+		for _, in := range b.Instrs {
+			st, isSt := in.(*ssa.Store)
+			if !isSt {
+				continue
+			}
+			fa, isFA := st.Addr.(*ssa.FieldAddr)
+			if !isFA || core.FieldName(fa.X.Type(), fa.Field) != "ast.Comment.Slash" {
+				continue
+			}
+			v := c.O.Of(st.Val)
+			got = v.String()
+			// the position comes from the group's own lines: directly, or through a local list filled from them
+			fromGroup := v.Contains(func(x *core.Term) bool {
+				return x.IsField("ast.Comment.Slash") && x.Contains(func(y *core.Term) bool { return y.String() == group })
+			})
+			if !fromGroup {
+				// a local []token.Pos filled in a loop over the group
+				for _, b2 := range fn.Blocks {
+					for _, in2 := range b2.Instrs {
+						if s2, isS2 := in2.(*ssa.Store); isS2 {
+							if _, isIA := s2.Addr.(*ssa.IndexAddr); isIA {
+								t2 := c.O.Of(s2.Val)
+								if t2.IsField("ast.Comment.Slash") && t2.Contains(func(y *core.Term) bool { return y.String() == group }) {
+									fromGroup = true
+								}
+							}
+						}
+					}
+				}
+			}
+			if fromGroup {
+				ok = true
+			}
+		}
+	}
+	r.Check(rule, FnKey(fn)+":kept-lines-end-where-the-group-ended", c.Pos(fn.Pos()), ok, "the kept lines of a comment group keep their places when lines are removed: a doc comment whose last line is a directive ends one line above its declaration afterwards and is printed detached from it ("+got+")")
+}
